@@ -23,7 +23,20 @@ def sh(cmd, timeout, env=None):
     e["PYTHONPATH"] = ROOT + (":" + e["PYTHONPATH"] if e.get("PYTHONPATH") else "")
     if env:
         e.update(env)
-    return subprocess.run(cmd, cwd=ROOT, capture_output=True, text=True, timeout=timeout, env=e)
+    # own session: on timeout the whole process group (pool workers included) is killed; a timeout is a checker failure
+    # (exit 3 in the caller), never a verdict about the repository
+    import signal
+    proc = subprocess.Popen(cmd, cwd=ROOT, stdout=subprocess.PIPE, stderr=subprocess.PIPE, text=True, env=e, start_new_session=True)
+    try:
+        out, err = proc.communicate(timeout=timeout)
+        return subprocess.CompletedProcess(cmd, proc.returncode, out, err)
+    except subprocess.TimeoutExpired:
+        try:
+            os.killpg(proc.pid, signal.SIGKILL)
+        except ProcessLookupError:
+            pass
+        out, err = proc.communicate()
+        return subprocess.CompletedProcess(cmd, -9, out or "", (err or "") + f"\n[driver] killed after {timeout}s (timeout)")
 
 
 def load_known():
@@ -159,7 +172,7 @@ def main():
                 os.unlink(bout)
             p = sh([VENV_PY, bmod, "--tier", tier, "--seed", str(seed), "--out", bout,
                     "--obligations", os.path.join(ROOT, "build", f"{prop}.obligations.json")],
-                   3600 if tier == "quick" else 6 * 3600)
+                   1200 if tier == "quick" else 6 * 3600)
             if p.returncode != 0 or not os.path.exists(bout):
                 print(p.stdout[-3000:], p.stderr[-6000:])
                 print(f"ENGINE-ERROR property={prop} bounded harness failed (exit {p.returncode})")
